@@ -19,19 +19,21 @@ def resStr (before : Nat) (m : Sim) (r : StepRes) : String :=
 /-- several softwares with different non-Ok outcomes observed in the same step: with random host
     order the first one is not determined by the model. -/
 def ambiguous (m : Sim) : Bool :=
-  let k := m.steps + 1
-  let evs := m.sws.filter (fun s => s.running && s.finStep m.tick + s.regStep == k && (s.effective == .err || s.effective == .panic))
+  let evs := m.sws.filter (fun s => s.running && s.finStep m.tick == s.ticks + 1 && (s.effective == .err || s.effective == .panic))
   evs.length ≥ 2 && evs.any (·.effective == .err) && evs.any (·.effective == .panic)
 
-def stepnLoop : Nat → Sim → List String → Bool → Sim × List String × Bool
+def stepnLoop (ro : Bool) : Nat → Sim → List String → Bool → Sim × List String × Bool
   | 0, m, acc, amb => (m, acc, amb)
   | n + 1, m, acc, amb =>
     let amb := amb || ambiguous m
     let (m', r) := step m
     match r with
-    | .cont true => stepnLoop n m' (acc ++ ["t"]) amb
-    | .cont false => stepnLoop n m' (acc ++ ["f"]) amb
-    | .errSoftware => (m', acc ++ ["software"], amb)
+    | .cont true => stepnLoop ro n m' (acc ++ ["t"]) amb
+    | .cont false => stepnLoop ro n m' (acc ++ ["f"]) amb
+    | .errSoftware =>
+      -- the simulation can be driven on after a software error; with random host order the model does
+      -- not know which hosts the aborted step had already ticked, so the comparison stops there
+      if ro then (m', acc ++ ["software"], amb) else stepnLoop ro n m' (acc ++ ["software"]) amb
     | .errTimeout => (m', acc ++ ["timeout"], amb)
     | .panic => (m', acc ++ ["panic"], amb)
 
@@ -41,6 +43,7 @@ def runAmb : Nat → Sim → Bool
 
 structure KState where
   m : Sim
+  ro : Bool := false        -- random host order
   bad : Option (Nat × String) := none
   dead : Bool := false
 
@@ -61,14 +64,16 @@ def kStep (st : KState) (x : Nat × List String × List String) : KState :=
     let amb := runAmb (st.m.duration / st.m.tick + 4) st.m
     let (m', r) := run st.m
     let want := resStr st.m.steps m' r
-    let st' := { st with m := m', dead := r != .cont true && r != .cont false }
+    let st' := { st with m := m', dead := r == .errTimeout || r == .panic || (st.ro && r == .errSoftware) }
     if got == want || amb then st' else fail st' want
   | ["ctl", "stepn", n] =>
-    let (m', acc, amb) := stepnLoop (n.toNat?.getD 0) st.m [] false
+    let (m', acc, amb) := stepnLoop st.ro (n.toNat?.getD 0) st.m [] false
     let want := s!"stepn {",".intercalate acc}"
-    let ended := match acc.getLast? with | some r => r != "t" && r != "f" | none => false
+    let cutShort := st.ro && acc.getLast? == some "software"
+    let ended := match acc.getLast? with | some r => r == "timeout" || r == "panic" || cutShort | none => false
     let st' := { st with m := m', dead := ended }
-    if got == want || amb then st' else fail st' want
+    let gotCmp := if cutShort then s!"stepn {",".intercalate (((obs.getD 1 "").splitOn ",").take acc.length)}" else got
+    if gotCmp == want || amb then st' else fail st' want
   | _ => st
 
 /-! ### oracle -/
@@ -144,7 +149,12 @@ def judge (st : OState) (ln : Nat) (kind : String) (endStep : Nat) : OState :=
 
 def oStep (st : OState) (x : Nat × List String × List String) : OState :=
   let (ln, op, obs) := x
-  if st.dead then st else
+  if st.dead then
+    -- after the first reported error the timing judgements stop (an aborted step shifts the clocks of
+    -- the hosts that had already been ticked); one rule stays: nothing may panic unless a software panics
+    let panicked := obs.any (fun t => t == "panic" || (t.splitOn ",").contains "panic")
+    if panicked && !st.sws.any (fun s => s.outcome == "panic") then st.fail ln "the simulation panicked although no software panics (a finished software was polled again?)" else st
+  else
   match op with
   | "ctl" :: "sw" :: kind :: kv =>
     { st with sws := st.sws ++ [{ client := kind == "client", atUs := kvNat kv "at" 0, outcome := (kvGet kv "outcome").getD "ok",
@@ -171,7 +181,11 @@ def oStep (st : OState) (x : Nat × List String × List String) : OState :=
   | ["ctl", "stepn", _] =>
     match obs with
     | ["stepn", rs] =>
-      let rs := rs.splitOn ","
+      let all := rs.splitOn ","
+      -- judge up to and including the first error; what follows is covered by the panic rule only
+      let cut := match all.findIdx? (fun r => r != "t" && r != "f") with | some i => i + 1 | none => all.length
+      let rs := all.take cut
+      let rest := all.drop cut
       let (st, _, _) := rs.foldl (fun (acc : OState × Nat × Bool) r =>
         let (st, i, seenT) := acc
         let stepNo := st.steps + i + 1
@@ -185,6 +199,8 @@ def oStep (st : OState) (x : Nat × List String × List String) : OState :=
         else if r == "software" then (judge st ln "software" stepNo, i + 1, seenT)
         else if r == "timeout" then (judge st ln "timeout" stepNo, i + 1, seenT)
         else (judge st ln "panic" stepNo, i + 1, seenT)) (st, 0, false)
+      let st := if rest.contains "panic" && !st.sws.any (fun s => s.outcome == "panic") then
+          st.fail ln "the simulation panicked although no software panics (a finished software was polled again?)" else st
       let completed := (rs.filter (fun r => r == "t" || r == "f")).length
       let ended := match rs.getLast? with | some r => r != "t" && r != "f" | none => false
       { st with dead := ended, steps := st.steps + completed }
@@ -197,7 +213,7 @@ def evalCase (lines : List String) : String × Bool × Bool :=
   let tick := kvNat cfgT "tick_us" 1000
   let dur := kvNat cfgT "duration_us" 10000
   let pairs := opObsPairs lines
-  let ks := pairs.foldl kStep { m := { tick := tick, duration := dur } }
+  let ks := pairs.foldl kStep { m := { tick := tick, duration := dur }, ro := kvGet cfgT "random_order" == some "1" }
   let os := pairs.foldl oStep { tick := tick, duration := dur }
   let kOk := ks.bad.isNone
   let o := os.res
